@@ -257,6 +257,9 @@ static void *prx_worker(void *arg) {
     return NULL;
 }
 
+/* counters read from the implementation's state are logged 31-bit safe: garbage stays a number TLC reads (and rejects) */
+static unsigned u31(uint32_t x) { return x > 2000000000u ? 2000000000u : x; }
+
 static void deliver(int id, size_t len, uint8_t fill, const uint8_t *pre, size_t npre, int eq, int all);
 
 static void parse_preempted(uint8_t *buf, vif *v) {
@@ -352,7 +355,7 @@ static void deliver(int id, size_t len, uint8_t fill, const uint8_t *pre, size_t
     fprintf(tr, ",\"app\":");
     vp_json_bytes(tr, view.mapper_apparent, 6);
     fprintf(tr, ",\"seq\":%u,\"gt\":%u,\"gq\":%u,\"icon\":%u,\"nsee\":%u,\"nlist\":%u,\"see\":[", view.mapper_seq, view.gen_topology,
-            view.gen_quick, view.icon_cached, view.see_count, view.see_listed);
+            view.gen_quick, view.icon_cached, u31(view.see_count), u31(view.see_listed));
     if (has && view.see_listed <= SNAP_CAP) {
         for (uint32_t i = 0; i < view.see_listed; i++) {
             if (i) fputc(',', tr);
